@@ -2,6 +2,7 @@
 correspondence suites tie the model to /repo, and how their results are compared
 (only the observables the property speaks about)."""
 import re
+from common import shrink_after_bar, shrink_hex_last_field
 
 TB_COMMON = [
     "Coq 8.16.1 kernel incl. vm_compute (no native_compute); full .vo build",
@@ -127,7 +128,7 @@ PROPS["C04"] = dict(
     trusted_base=TB_COMMON,
     assumptions=["float32->float64 conversion quiets signalling NaNs (amd64 CVTSS2SD), pinned by the correspondence on all half floats and sampled singles", "Go int is 64 bit"],
     suites=[
-        ("cbor-dec", dict(cmp=cmp_c04_dec, nontrivial=nt_c04_dec,
+        ("cbor-dec", dict(cmp=cmp_c04_dec, shrinker=shrink_hex_last_field, nontrivial=nt_c04_dec,
                           what="cbor.NewDecoder(opts, r).Step vs CborDec.dec_run and CborParse.parse_item: all byte strings <= 2 (quick) / 3 (thorough) bytes, all strings <= 3/4 over a 46-byte structural alphabet, all 65536 half floats, sampled singles, head boundaries on every major, generated items in random spellings with every proper prefix and single-byte mutations, deep nesting; both option settings")),
     ],
 )
@@ -176,7 +177,7 @@ PROPS["C14"] = dict(
     assumptions=["the real Step functions depend on the token only through its type, length sign and tag (the enumeration alphabet covers each class)"],
     suites=[
         ("cbor-enc", dict(cmp=cmp_c14, nontrivial=nt_c14, what="cbor.NewEncoder: verdict (done/err/panic, token index) vs TokGrammar.ctx_run key_cbor and vs the CborEnc model")),
-        ("json-enc", dict(cmp=cmp_c14, nontrivial=nt_c14, what="json.NewEncoder: verdict vs ctx_run key_json (representable tokens) / vs JsonEnc model (sequences with bytes, NaN, Inf)")),
+        ("json-enc", dict(cmp=cmp_c14, shrinker=shrink_after_bar, nontrivial=nt_c14, what="json.NewEncoder: verdict vs ctx_run key_json (representable tokens) / vs JsonEnc model (sequences with bytes, NaN, Inf)")),
         ("pretty-enc", dict(cmp=cmp_c14, nontrivial=nt_c14, what="pretty.NewEncoder: verdict vs ctx_run key_cbor and the Pretty model; deep nesting up to 2000")),
     ],
 )
@@ -212,6 +213,10 @@ def cmp_c05_dec(payload, impl, model):
         return viol("valid JSON decoded to a different value than encoding/json assigns: %s" % left[:100])
     if lv == "0" and acc == "1":
         return viol("text that is not valid JSON even after deleting trailing commas was accepted: %s" % left[:100])
+    model, _, spec = model.partition(" | spec: ")
+    first_model = model.split(" ;; ")[0]
+    if spec and (spec == "fuel" or (spec.startswith("ok") != first_model.startswith("ok")) or (spec.startswith("ok") and spec != first_model)):
+        return mism("decoder model and reference parser disagree: %s vs %s" % (first_model[:80], spec[:80]))
     # model vs implementation on the first item (ok/err, tokens, bytes consumed) and on how the rest frames
     if _norm_items(left) != _norm_items(model):
         li, mi = _norm_items(left), _norm_items(model)
@@ -233,7 +238,96 @@ PROPS["C05"] = dict(
     trusted_base=TB_COMMON + ["encoding/json (Valid, Decoder.Token with UseNumber) and strconv as independent oracles inside the harness"],
     assumptions=["acceptance of a text = one item decoded and only whitespace left (stream decoder)", "valid JSON numbers outside int64/uint64/float64 range are exempt (unrep=1): the decoder reports an error for them"],
     suites=[
-        ("json-dec", dict(cmp=cmp_c05_dec, nontrivial=nt_c05, timeout=3600,
+        ("json-dec", dict(cmp=cmp_c05_dec, shrinker=shrink_hex_last_field, nontrivial=nt_c05, timeout=3600,
                           what="json.NewDecoder(r).Step vs JsonDec.jdec_run (items, tokens, consumed bytes via the verif hook) and vs encoding/json")),
+    ],
+)
+
+
+# ---------------------------------------------------------------------------
+# C03: json-enc   impl  = "<cls> <used> <hex> <chunks> | rt: <item> | ej: valid= same= wsonly="
+#                 model = "<cls> <used> <hex> <chunks> | rt: <item> | ctx: .. | repr: .."
+# ---------------------------------------------------------------------------
+import struct as _struct
+
+_EJ3 = _re.compile(r"ej: valid=(\d) same=(\d) wsonly=(\d)")
+
+
+def _json_payload_tokens(payload):
+    return payload.split("|", 1)[1].split()
+
+
+def _float_of_bits(h):
+    return _struct.unpack(">d", bytes.fromhex(h))[0]
+
+
+def has_unreadable_integral_float(payload):
+    """D5b class: a finite float token with |f| < 1e21 whose ES6-style text is a plain digit string
+    (no '.', no exponent) denoting an integer outside [-2^63, 2^64-1]: the encoder prints it that way and
+    no integer parse accepts it."""
+    import decimal
+    for t in _json_payload_tokens(payload):
+        if t.startswith("f") and len(t) == 17:
+            f = _float_of_bits(t[1:])
+            if f != f or f in (float("inf"), float("-inf")) or abs(f) >= 1e21 or abs(f) < 1e-6:
+                continue
+            text = format(decimal.Decimal(repr(f)), "f")
+            if "." in text:
+                continue
+            v = int(text)
+            if v > 2 ** 64 - 1 or v < -(2 ** 63):
+                return True
+    return False
+
+
+def cmp_c03_enc(payload, impl, model):
+    toks = _json_payload_tokens(payload)
+    mf = model.split(" | ")[0].split(" ")
+    if part(model, "repr: ") != "1" or mf[0] != "fin" or int(mf[1]) != len(toks) or any(t.startswith("#") for t in toks):
+        return None   # outside JSON's data model / not one complete value: C03 is silent
+    f = impl.split(" | ")[0].split(" ")
+    if f[0] != "fin" or int(f[1]) != len(toks):
+        return viol("well-formed in-domain token sequence not accepted: %s %s" % (f[0], f[1]))
+    m = _EJ3.search(impl)
+    if m is None:
+        return mism("oracle fields missing")
+    valid, same, wsonly = m.groups()
+    if valid != "1":
+        return viol("output is not valid RFC 8259 JSON (encoding/json.Valid): %s" % bytes.fromhex(f[2] if f[2] != "-" else "")[:80])
+    if same != "1":
+        return viol("an independent parser reads the output as a different value: %s" % bytes.fromhex(f[2])[:80])
+    if wsonly != "1":
+        return viol("pretty-printed output differs from compact output by more than insignificant whitespace")
+    irt, mrt = part(impl, "rt: "), part(model, "rt: ")
+    if irt is None or not irt.startswith("ok"):
+        return viol("refmt's own decoder cannot re-read the encoder's output: %s" % str(irt)[:80])
+    if irt != mrt:
+        return viol("re-reading the output: expected %s, got %s" % (str(mrt)[:100], irt[:100]))
+    if f[2] != mf[2]:
+        return mism("output bytes differ from the model's (still valid, same value): impl %s model %s" % (f[2][:60], mf[2][:60]))
+    return None
+
+
+def nt_c03(payload, impl, model):
+    mf = model.split(" | ")[0].split(" ")
+    return mf[0] == "fin" and part(model, "repr: ") == "1" and len(mf[2]) >= 6
+
+
+def kf_d5b(sname, m):
+    return sname == "json-enc" and "cannot re-read" in m.get("detail", "") and has_unreadable_integral_float(m.get("payload", "~ ~ -|"))
+
+
+FINDING_CLASSES["json-integral-float-beyond-uint64"] = kf_d5b
+
+PROPS["C03"] = dict(
+    coq="Properties_C03",
+    level_text="Proved in Coq on the encoder model: for every token tree inside JSON's data model and every whitespace option the output is read by the strict RFC 8259 reference reading as the same value (strings coerced to valid UTF-8, numbers re-typed), hence also by the decoder; escaping is inverse to unescaping for every byte string. Float formatting is proved as layout around the shortest-digits oracle (strconv's digit generation is assumed, hypothesis checked by the harness per case). Tied to json.Encoder by the correspondence run, and the output is independently parsed with encoding/json on every case.",
+    level_note="partial for floats: strconv.AppendFloat's shortest digits are an oracle (Section variable) whose round-trip hypothesis the harness checks on every float it uses. Trusted: Coq kernel, extraction, OCaml driver, Go harness, encoding/json as independent validator. No axioms.",
+    rule="json-enc cases; non-trivial = in-domain complete value with output of at least 3 bytes; distinct by payload",
+    trusted_base=TB_COMMON + ["oracle: strconv.AppendFloat(f,'e',-1,64) digits read back as f (checked per case by the harness: ORACLE-HYPOTHESIS-FAILED marker otherwise)", "encoding/json (Valid, Compact, Decoder.Token) as independent RFC 8259 parser"],
+    assumptions=["tags are outside the property's quantifier (the JSON encoder ignores them)"],
+    suites=[
+        ("json-enc", dict(cmp=cmp_c03_enc, shrinker=shrink_after_bar, nontrivial=nt_c03,
+                          what="json.NewEncoder(w, opts).Step vs JsonEnc model bytes; output re-read by the real decoder and by encoding/json; all single bytes and 2-byte sequences (stride in quick) as string content, code point classes, int/uint boundaries, float switch points and powers of ten +-1ulp, nesting shapes x 9 whitespace options, random trees")),
     ],
 )
